@@ -14,3 +14,5 @@ for p in "$@"; do
   echo "$out" | grep VIOLATION | head -3
 done
 git -C /repo worktree remove --force $wt
+# the checks regenerate lean/PP/Generated.lean from the tree they look at: put the one of /repo back
+(cd ${VERIF_ROOT:-/verif}/harness && /venv/bin/python -c "import translator; translator.regenerate()" > /dev/null 2>&1)
